@@ -39,7 +39,7 @@ def _stored_field(ctx: Ctx, ci: ClassInfo, option: str) -> Optional[str]:
     return None
 
 
-def fwd_options(ctx: Ctx, options: Sequence[str], floor: int, scope: Optional[Iterable[str]] = None) -> None:
+def fwd_options(ctx: Ctx, options: Sequence[str], floor: int, scope: Optional[Iterable[str]] = None, skip_callees: Iterable[str] = ()) -> None:
     p = ctx.p
     cg = callgraph(ctx)
     ty = typer(ctx)
@@ -63,7 +63,7 @@ def fwd_options(ctx: Ctx, options: Sequence[str], floor: int, scope: Optional[It
             sn = f.param_names()[0] if f.param_names() else None
             for call, g in cg.edges.get(f.fq, []):
                 t = cg.target(g)
-                if t is None or opt not in t.param_names():
+                if t is None or opt not in t.param_names() or t.fq in skip_callees:
                     continue
                 bound = isinstance(g, ClassInfo) or is_bound_call(ty, f, call, t)
                 args = call_args(call, t, bound=bound)
@@ -115,7 +115,7 @@ KW_WRAPPERS = {
 }
 
 
-def fwd_kwargs(ctx: Ctx, floor: int = 8) -> None:
+def fwd_kwargs(ctx: Ctx, floor: int = 8, scope: Optional[Iterable[str]] = None) -> None:
     """A function with **kwargs documented as passed down: every call to a kwargs-accepting repo callee or to a
     filesystem open passes **kwargs, and at least one such call exists (otherwise the kwargs are dropped)."""
     p = ctx.p
@@ -125,6 +125,8 @@ def fwd_kwargs(ctx: Ctx, floor: int = 8) -> None:
     for f in p.nontest_functions():
         kw = f.has_kwargs()
         if not kw or f.parent is not None:
+            continue
+        if scope is not None and f.fq not in scope and f.fq not in KW_WRAPPERS:
             continue
         if f.fq in KW_WRAPPERS:
             ctx.observe("R-FWD", f, "**kwargs wrapper", KW_WRAPPERS[f.fq])
